@@ -130,7 +130,7 @@ struct Sw<'a, 'e, T: IteTable<'a, BddPtr<'a>> + Default> {
     /// function -> pointer identity (both polarities entered)
     canon: HashMap<TT, (usize, bool)>,
     /// materialised functions
-    f: Vec<BddPtr<'a>>,
+    f: FStore<BddPtr<'a>>,
     rep: Report,
     digests: Vec<u64>,
     expected: Option<&'e [u64]>,
@@ -403,7 +403,7 @@ impl<'a, 'e, T: IteTable<'a, BddPtr<'a>> + Default> Sw<'a, 'e, T> {
             v.dedup();
             v
         };
-        self.f = vec![BddPtr::PtrFalse; total];
+        self.f = FStore::new(total, BddPtr::PtrFalse, self.cfg.pool != 0);
         for &t in dom.iter() {
             let r = guarded(|| self.shannon(t as TT, 0));
             let r = match r {
@@ -458,7 +458,7 @@ fn sweep<'a, 'e, T: IteTable<'a, BddPtr<'a>> + Default>(
         n,
         level,
         canon: HashMap::new(),
-        f: Vec::new(),
+        f: FStore::empty(BddPtr::PtrFalse),
         rep: Report::default(),
         digests: Vec::new(),
         expected,
@@ -598,7 +598,7 @@ fn sweep<'a, 'e, T: IteTable<'a, BddPtr<'a>> + Default>(
     }
     // variables added at run time: the order grows, old diagrams keep their meaning
     if !s.stop {
-        for round in 0..2 {
+        for round in 0..(6usize.saturating_sub(cfg.n)).min(2) {
             let pol = round == 0;
             let r = guarded(|| b.new_var(pol));
             match r {
@@ -1018,6 +1018,27 @@ pub fn run_all(ctx: &Ctx) -> Report {
     rep.bound("R4", json!({"variables": 4, "orders": 24, "operands": "all cubes, all clauses, every function of <= 2 variables (about 230)", "pairs": "all ordered pairs x and/or/xor/iff; unary ops, compose, ite pool, lists, new_var", "caches": ["all", "lru-2^0", "lru-2^3"]}));
     rep.add_extra("R4_operations", r4.transitions);
     rep.merge(r4);
+    // R5 (thorough), n = 5: the same operand-pool regime under the identity, the reversed and
+    // every 11th other order
+    if ctx.tier == Tier::Thorough {
+        let mut o5: Vec<Vec<usize>> = vec![vec![0, 1, 2, 3, 4], vec![4, 3, 2, 1, 0]];
+        o5.extend(permutations(5).into_iter().skip(5).step_by(11));
+        let items5: Vec<(usize, Vec<usize>)> = o5.into_iter().enumerate().collect();
+        let r5 = par_run(ctx, &items5, |i, (_, o)| {
+            let base = Cfg { n: 5, order: o.clone(), cache: CacheKind::All, table_cap: 2, issue: i + ctx.seed as usize, ite_pool: 24, full_ite: false, pool: 1 };
+            let (mut r, dig) = run_sweep_cfg(&base, None, ctx);
+            r.add_extra("configurations", 1);
+            let mut c = base.clone();
+            c.cache = CacheKind::Lru(Some(2));
+            let (x, _) = run_sweep_cfg(&c, Some(&dig), ctx);
+            r.add_extra("configurations", 1);
+            r.merge(x);
+            r
+        });
+        rep.bound("R5", json!({"variables": 5, "orders": items5.len(), "operands": "all cubes, all clauses, every function of <= 2 variables (about 640)", "caches": ["all", "lru-2^2"]}));
+        rep.add_extra("R5_operations", r5.transitions);
+        rep.merge(r5);
+    }
     rep.floor("R2: unique-table growths", growths, 1);
     rep.floor("R2: complemented roots seen", compl, 1);
     // R1, n = 2
